@@ -71,7 +71,7 @@ func isCASConst(in ssa.Instruction, f *types.Var, from, to int64) bool {
 // ---- C14.after ----
 func ruleC14After(cx *Ctx) {
 	const rule = "C14.after"
-	cx.R.Rule(rule, 2, "a successful writeBuffer.TryPush is followed by scheduleAfterWrite on all paths; every path of the enqueue function ends in that or in performCleanUp(task)")
+	cx.R.Rule(rule, 1, "a successful writeBuffer.TryPush is followed by scheduleAfterWrite on all paths; every path of the enqueue function ends in that or in performCleanUp(task)")
 	wb := cx.needField(rule, "", "cache", "writeBuffer")
 	tryPush := cx.need(rule, "internal/deque/queue", "MPSC", "TryPush")
 	saw := cx.need(rule, "", "cache", "scheduleAfterWrite")
@@ -126,7 +126,7 @@ func ruleC14After(cx *Ctx) {
 // ---- C14.resched ----
 func ruleC14Resched(cx *Ctx) {
 	const rule = "C14.resched"
-	cx.R.Rule(rule, 11, "every release of the eviction lock is followed on all paths by rescheduleCleanUpIfIncomplete (a writer whose TryLock failed relies on the holder)")
+	cx.R.Rule(rule, 3, "every release of the eviction lock is followed on all paths by rescheduleCleanUpIfIncomplete (a writer whose TryLock failed relies on the holder)")
 	mu := cx.needField(rule, "", "cache", "evictionMutex")
 	resched := cx.need(rule, "", "cache", "rescheduleCleanUpIfIncomplete")
 	pcu := cx.P.Func("", "cache", "performCleanUp")
@@ -172,8 +172,8 @@ func ruleC14Resched(cx *Ctx) {
 				cx.R.Check(ok, rule, name, construct, cx.P.where(in), "deferred Unlock of the eviction lock must be followed by a reschedule (deferred before it)")
 				return
 			}
-			ok, w := MustFollow(in, isRes, exitReturn)
-			cx.R.Check(ok, rule, name, construct, cx.P.where(in), "Unlock of the eviction lock is followed by rescheduleCleanUpIfIncomplete on every path to return", w...)
+			ok, w := mustFollowInter(cx, in, isRes, 3)
+			cx.R.Check(ok, rule, name, construct, cx.P.where(in), "Unlock of the eviction lock is followed by rescheduleCleanUpIfIncomplete on every path to return (continuing in the callers when the unlock sits in a helper)", w...)
 		})
 	}
 	// rescheduleCleanUpIfIncomplete itself: status == required (and default executor) leads to scheduleDrainBuffers
@@ -212,7 +212,7 @@ func ruleC14Resched(cx *Ctx) {
 			continue
 		}
 		f := fieldOf(g.Cond)
-		if f != nil && f.Name() == "hasDefaultExecutor" && g.Truth {
+		if f != nil && fname(f) == "hasDefaultExecutor" && g.Truth {
 			continue
 		}
 		cx.R.Violate(rule, funcName(resched), "schedule-guard", cx.P.where(g.If), "unexpected extra guard on the reschedule: "+g.Cond.String())
@@ -231,7 +231,7 @@ func isLoadOf(v ssa.Value, f *types.Var) bool {
 // ---- C14.status ----
 func ruleC14Status(cx *Ctx) {
 	const rule = "C14.status"
-	cx.R.Rule(rule, 12, "drain-status protocol shape: maintenance begins with Store(processingToIdle) and ends with CAS(processingToIdle->idle) else Store(required); the drain cap stores processingToRequired; scheduleAfterWrite leaves the processingToIdle case only after a successful CAS; status switches are exhaustive")
+	cx.R.Rule(rule, 4, "drain-status protocol shape: maintenance begins with Store(processingToIdle) and ends with CAS(processingToIdle->idle) else Store(required); the drain cap stores processingToRequired; scheduleAfterWrite leaves the processingToIdle case only after a successful CAS; status switches are exhaustive")
 	ds := cx.needField(rule, "", "cache", "drainStatus")
 	st := cx.status(rule)
 	maint := cx.need(rule, "", "cache", "maintenance")
@@ -306,7 +306,7 @@ func ruleC14Status(cx *Ctx) {
 			// !withMaintenance early return
 			if ifi, ok := in.(*ssa.If); ok {
 				c, neg := stripNot(ifi.Cond)
-				if f := fieldOf(c); f != nil && f.Name() == "withMaintenance" {
+				if f := fieldOf(c); f != nil && fname(f) == "withMaintenance" {
 					idx := 1 // false edge of the flag
 					if neg {
 						idx = 0
@@ -416,20 +416,23 @@ func ruleC14Status(cx *Ctx) {
 // ---- C14.lockpair ----
 func ruleC14LockPair(cx *Ctx) {
 	const rule = "C14.lockpair"
-	cx.R.Rule(rule, 10, "Lock / successful TryLock of the eviction lock is paired with Unlock on all paths (token hand-off in scheduleDrainBuffers modelled explicitly)")
+	cx.R.Rule(rule, 3, "Lock / successful TryLock of the eviction lock is paired with Unlock on all paths (token hand-off in scheduleDrainBuffers modelled explicitly)")
 	mu := cx.needField(rule, "", "cache", "evictionMutex")
 	if mu == nil {
 		return
 	}
-	isUnlock := func(in ssa.Instruction) bool { return mutexOp(in, mu, "Unlock") }
+	isUnlock := func(in ssa.Instruction) bool { return unlockLike(in, mu) }
 	for _, fn := range cx.P.FuncsOfPkg("") {
 		name := funcName(fn)
 		nl := 0
+		if mutexEffect(fn, mu, 0) == effAcquire {
+			continue // a helper that returns holding the lock: its callers are checked instead
+		}
 		allInstrs(fn, func(in ssa.Instruction) {
 			if _, isDefer := in.(*ssa.Defer); isDefer {
 				return
 			}
-			if mutexOp(in, mu, "Lock") {
+			if lockLike(in, mu) {
 				nl++
 				ok, w := MustFollow(in, isUnlock, exitReturn)
 				cx.R.Check(ok, rule, name, fmt.Sprintf("Lock#%d", nl), cx.P.where(in), "Lock(evictionMutex) is released on every path to return", w...)
@@ -508,7 +511,7 @@ func tokenPassedToDrain(cx *Ctx, fn *ssa.Function, tok ssa.Value) bool {
 // ---- C14.dispatch ----
 func ruleC14Dispatch(cx *Ctx) {
 	const rule = "C14.dispatch"
-	cx.R.Rule(rule, 3, "a scheduled drain really runs maintenance: scheduleDrainBuffers publishes processingToIdle and hands a task to the executor that must reach maintenance; drainBuffers reaches maintenance on all paths")
+	cx.R.Rule(rule, 1, "a scheduled drain really runs maintenance: scheduleDrainBuffers publishes processingToIdle and hands a task to the executor that must reach maintenance; drainBuffers reaches maintenance on all paths")
 	sdb := cx.need(rule, "", "cache", "scheduleDrainBuffers")
 	db := cx.need(rule, "", "cache", "drainBuffers")
 	maint := cx.need(rule, "", "cache", "maintenance")
@@ -583,4 +586,31 @@ func ruleC14Dispatch(cx *Ctx) {
 	if n == 0 {
 		cx.R.Violate(rule, name, "TryLock", cx.P.Pos(sdb.Pos()), "scheduleDrainBuffers no longer try-locks the eviction lock")
 	}
+}
+
+// mustFollowInter is MustFollow that, when a function exit is reached first, continues after every synchronous call
+// site of that function (helpers such as unlockAndReschedule / lockedMaintenance keep the obligation with the caller).
+func mustFollowInter(cx *Ctx, from ssa.Instruction, is func(ssa.Instruction) bool, depth int) (bool, []string) {
+	ok, w := MustFollow(from, is, exitReturn)
+	if ok || depth == 0 {
+		return ok, w
+	}
+	lc := lockContext(cx)
+	if lc == nil {
+		return false, w
+	}
+	fn := origin(from.Parent())
+	if from.Parent().Parent() != nil {
+		return false, w // closures: no continuation
+	}
+	sites := lc.sites[fn]
+	if len(sites) == 0 {
+		return false, w
+	}
+	for _, s := range sites {
+		if ok2, w2 := mustFollowInter(cx, s, is, depth-1); !ok2 {
+			return false, append(append(w, "… continuing after the call at "+cx.P.where(s)+" in "+funcName(s.Parent())), w2...)
+		}
+	}
+	return true, nil
 }
